@@ -68,7 +68,6 @@ OutOfDomain(e) ==
   \/ e.op = "Install" /\ ~(SlotOK(SlotFromObs(e.obs)) /\ ObsOK(e.obs, SlotFromObs(e.obs)))
   \/ e.op = "AddNode" /\ e.preset                 \* a node that already carries edges or compromise marks
   \/ e.op = "AttachAttackers" /\ \E k \in DOMAIN e.atks : e.atks[k].h \in AtkHs(S0) \/ e.atks[k].id \in GAtkIds(S0)
-  \/ e.res # "ok"
   \/ e.op = "AddNode" /\ (e.h \in NodeHs(S0) \/ e.id \in NodeIds(S0))
   \/ e.op = "RemoveNode" /\ e.h \notin NodeHs(S0)
   \/ e.op = "AddGAttacker" /\ (e.h \in AtkHs(S0) \/ e.id \in GAtkIds(S0) \/ ~(Range(e.entry) \cup Range(e.reached) \subseteq NodeHs(S0)))
@@ -78,6 +77,7 @@ OutOfDomain(e) ==
   \/ e.op = "Analyse" /\ \E k \in DOMAIN S0.nodes : S0.nodes[k].kind \in {"defense", "exist", "notExist"} /\ S0.nodes[k].st = -1
 Step == /\ tid > 0 /\ pos > 0 /\ pos <= Len(Traces[tid].events)
         /\ ~OutOfDomain(CurEv)
+        /\ CurEv.res = "ok"                        \* a call inside the specified domain does not raise
         /\ gS' = [gS EXCEPT !["main"] = Eff(CurEv)]
         /\ ObsOK(CurEv.obs, gS'["main"])
         /\ gAct' = [op |-> CurEv.op, g |-> "main", res |-> "ok"]
